@@ -27,7 +27,7 @@ Print Assumptions C06_compatible_count.
      or_no_true_child C : no Or node has a TrueN child
      exec_spec C n A = forall clean s, preprocess (build C n) A s = Some s1 ->
                        execute_query (build C n) (sort_abs A) s1 = (s2, r) ->
-                       r = MCA C n A /\ temps_ok (sort_abs A) C (temps s2) /\ Clean C s2
+                       r = MCA C n A /\ (0 < r -> temps_ok (sort_abs A) C (temps s2)) /\ Clean C s2
                        (the correctness of execute_query on the preprocessed scratch; HYPOTHESIS of
                         the page theorems, proved here only for A = [] : C06_exec_spec_nil)
    --------------------------------------------------------------------------------------------- *)
@@ -253,7 +253,7 @@ Tactic Notation "concrete_exec" integer(k) :=
   vm_compute in Hpre; inversion Hpre; subst s1; clear Hpre;
   vm_compute in Hq; inversion Hq; subst s2 r; clear Hq;
   split; [vm_compute; reflexivity|]; split;
-  [ intros i Hi Hnt;
+  [ intros _ i Hi Hnt;
     do k (destruct i as [|i]; [try (vm_compute; reflexivity); exfalso; now apply Hnt|]);
     cbn in Hi; lia
   | constructor; cbn [temps marks pds mdl]; try reflexivity; [exact Hpd|repeat constructor] ].
